@@ -725,6 +725,14 @@ func skolemize(goal string, assumes []string, tag int) (decls []string, newGoal 
 		if !ok || len(abs) > 3 {
 			continue
 		}
+		if tb := strings.TrimSpace(abody); strings.HasPrefix(tb, "(!") {
+			// (! body :pattern ...): an annotation is only legal directly under a quantifier
+			if parts := sexprSplit(tb[1 : len(tb)-1]); len(parts) >= 2 {
+				abody = parts[1]
+			} else {
+				continue
+			}
+		}
 		// all combinations of skolems of matching sorts
 		combos := []string{abody}
 		feasible := true
